@@ -19,7 +19,7 @@ ANCHORS = ['phylib.io.datasets:download_file', 'phylib.io.datasets:_check_md5_of
 RULE = ('A scripted HTTP server on 127.0.0.1 (real sockets, real `requests`) serves, per case, a scripted '
         'sequence of data responses and a checksum behaviour; the case also fixes the prior state of the '
         'target file. EVERY data script of length 1..3 over {good, corrupt, 404} x checksum {correct, wrong, '
-        'missing} x prior file {absent, valid, corrupt} = 351 cases (quick and thorough) + 24 cases with near-collision / truncated / empty / 150 KiB / gzip-transfer-encoded bodies and failing or lying HEAD; plus 6 histories of 2-3 calls for the same url and path with the server and the local file changing in between; thorough adds random '
+        'missing} x prior file {absent, valid, corrupt} = 351 cases (quick and thorough) + 24 cases with near-collision / truncated / empty / 150 KiB / gzip-transfer-encoded bodies and failing or lying HEAD; 60 cases in which the data URL redirects (302) to a mirror without a checksum file, the server adds Content-MD5 / ETag / Digest headers describing the bytes it sends, or the checksum file is an md5sum line with a non-ASCII file name served as ISO-8859-1 (declared or not); plus 6 histories of 2-3 calls for the same url and path with the server and the local file changing in between; thorough adds random '
         'truncated / empty / 150 KiB multi-chunk bodies, failing HEAD requests and per-request checksum '
         'scripts. The monitor is the server request log (M5) + return/exception + final file bytes, judged '
         'against the retry state machine of the statement. non-trivial = distinct scripts whose first '
@@ -29,7 +29,8 @@ EXHAUSTIVE_SCOPE = {'quick': 'all 351 scripted fault sequences of the quantifier
                     'thorough': 'the same 351 plus sampled extended fault kinds'}
 FLOORS = {'quick': {'evaluations': 430, 'distinct_nontrivial': 200, 'monitors': {'M5.data_get': 300}},
           'thorough': {'evaluations': 5000, 'distinct_nontrivial': 2000, 'monitors': {'M5.data_get': 3000}}}
-ASSUMPTIONS = ['loopback HTTP is available in the sandbox; proxies disabled via no_proxy',
+ASSUMPTIONS = ['"while the checksum is available" is a fact about the server: for scripts with a constant, served checksum the safety clause is judged whether or not the client requested it',
+               'loopback HTTP is available in the sandbox; proxies disabled via no_proxy',
                'when the checksum is unavailable only "an HTTP error raises" and "file = last body served" '
                'are judged']
 NSHARDS = 16
@@ -63,9 +64,11 @@ class Handler(BaseHTTPRequestHandler):
     def log_message(self, *a):
         pass
 
-    def _send(self, code, body=b'', head_only=False):
+    def _send(self, code, body=b'', head_only=False, headers=()):
         self.send_response(code)
         self.send_header('Content-Length', str(len(body)))
+        for k_, v_ in headers:
+            self.send_header(k_, v_)
         self.end_headers()
         if not head_only:
             self.wfile.write(body)
@@ -90,6 +93,8 @@ class Handler(BaseHTTPRequestHandler):
             if path.endswith('.md5'):
                 sc = State.scripts.get(path[:-4])
                 State.log.append(('GET_MD5', path))
+                if sc is not None and 'alias_of' in sc:
+                    sc = None             # the mirror a data URL redirects to publishes no checksum of its own
                 if sc is None:
                     beh = 'missing'
                 elif isinstance(sc['md5'], list):
@@ -101,6 +106,10 @@ class Handler(BaseHTTPRequestHandler):
             else:
                 sc = State.scripts.get(path)
                 State.log.append(('GET', path))
+                if sc is not None and 'alias_of' in sc:
+                    sc = State.scripts.get(sc['alias_of'])
+                elif sc is not None and sc.get('redirect'):
+                    return self._send(302, b'moved', headers=[('Location', sc['redirect'])])
                 beh = (sc['data'].pop(0) if sc and sc['data'] else 'exhausted')
                 if sc is not None:
                     sc['served'].append(beh)
@@ -110,9 +119,12 @@ class Handler(BaseHTTPRequestHandler):
             good = BODIES[sc['good']]
             if beh == 'garbage':
                 return self._send(200, b'<html><body>no such file</body></html>')
-            h = hashlib.md5(good if beh in ('correct', 'upper') else b'something else').hexdigest()
+            h = hashlib.md5(good if beh in ('correct', 'upper', 'latin1', 'latin1_undeclared') else b'something else').hexdigest()
             if beh == 'upper':
                 h = h.upper()
+            if beh.startswith('latin1'):      # md5sum line naming a file with non-ASCII characters, served as ISO-8859-1
+                return self._send(200, (h + '  donn\xe9es \xfc.bin\n').encode('latin-1'), headers=[
+                    ('Content-Type', 'text/plain; charset=ISO-8859-1' if beh == 'latin1' else 'application/octet-stream')])
             return self._send(200, (h + '  file.bin\n').encode())
         if beh in ('404', 'exhausted'):
             return self._send(404 if beh == '404' else 500, b'error')
@@ -125,7 +137,14 @@ class Handler(BaseHTTPRequestHandler):
             self.end_headers()
             self.wfile.write(z)
             return
-        self._send(200, BODIES[beh])
+        hdr = []
+        if sc.get('honest_headers'):
+            # what web servers / object stores add on their own: digests of the bytes they are actually sending
+            import base64
+            dg = hashlib.md5(BODIES[beh])
+            hdr = [('Content-MD5', base64.b64encode(dg.digest()).decode()), ('ETag', '"%s"' % dg.hexdigest()),
+                   ('Digest', 'MD5=' + base64.b64encode(dg.digest()).decode()), ('Content-Type', 'application/octet-stream')]
+        self._send(200, BODIES[beh], headers=hdr)
 
 
 _SERVER = None
@@ -182,6 +201,14 @@ def run_shard(desc, ctx):
             run_case({'steps': steps}, ctx)
     extra += [{'data': dd, 'md5': 'correct', 'prior': pr, 'good': 'good', 'head': 'ok', 'gzip': True}
               for dd in (['corrupt', 'corrupt'], ['corrupt', 'good'], ['good'], ['corrupt']) for pr in ('absent', 'corrupt')]
+    # the data URL redirects to a mirror that has no checksum file of its own; servers that add digest headers
+    # describing the bytes they send; checksum files with non-ASCII file names served as ISO-8859-1
+    for dd in (['corrupt', 'corrupt'], ['corrupt', 'good'], ['good'], ['corrupt'], ['404']):
+        for pr in ('absent', 'corrupt', 'valid'):
+            extra.append({'data': dd, 'md5': 'correct', 'prior': pr, 'good': 'good', 'head': 'ok', 'redirect': True})
+            extra.append({'data': dd, 'md5': 'correct', 'prior': pr, 'good': 'good', 'head': 'ok', 'honest_headers': True})
+            extra.append({'data': dd, 'md5': 'latin1', 'prior': pr, 'good': 'good', 'head': 'ok'})
+            extra.append({'data': dd, 'md5': 'latin1_undeclared', 'prior': pr, 'good': 'good', 'head': 'ok'})
     for i, c in enumerate(extra):
         if i % desc['n'] == desc['shard']:
             if c['data'][0].startswith('big'):
@@ -293,8 +320,16 @@ def run_case(case, ctx, shared=None):
             f.write(prior_bytes)
     sc = {'data': list(case['data']), 'md5': list(case['md5']) if isinstance(case['md5'], list) else case['md5'],
           'good': good, 'head': case['head'], 'served': [], 'md5_served': [], 'gzip': bool(case.get('gzip'))}
+    mirror = None
+    if case.get('redirect'):
+        mirror = path.replace('/c', '/mirror_c', 1)
+        sc['redirect'] = mirror
+    if case.get('honest_headers'):
+        sc['honest_headers'] = True
     with State.lock:
         State.scripts[path] = sc
+        if mirror:
+            State.scripts[mirror] = {'alias_of': path}
     completes = []
     ev.reset()
     ev.connect(lambda sender, **kw: completes.append(1), event='complete')
@@ -316,12 +351,16 @@ def run_case(case, ctx, shared=None):
         info = 'served=%r md5=%r outcome=%s' % (served, md5_served, 'returned' if r.ok else repr(r.exc))
         published = hashlib.md5(BODIES[good]).hexdigest()
         all_md5_ok = bool(md5_served) and all(m != 'missing' for m in md5_served)
+        if isinstance(case['md5'], str) and case['md5'] != 'missing':
+            # 'while the checksum is available' is a fact about the server, not about what the client chose to ask
+            all_md5_ok = True
+            md5_served = md5_served or [case['md5']]
         # (1) the central safety property
-        strict = all(m in ('correct', 'wrong', 'missing') for m in
+        strict = all(m in ('correct', 'wrong', 'missing', 'latin1') for m in
                      (case['md5'] if isinstance(case['md5'], list) else [case['md5']]))
         if r.ok and all_md5_ok:
             last = md5_served[-1]
-            pub = {'correct': published, 'upper': published, 'garbage': None}.get(
+            pub = {'correct': published, 'upper': published, 'latin1': published, 'latin1_undeclared': published, 'garbage': None}.get(
                 last, hashlib.md5(b'something else').hexdigest())
             if final is None or hashlib.md5(final).hexdigest() != pub:
                 ctx.violation('returned_with_bad_checksum', case,
@@ -347,6 +386,7 @@ def run_case(case, ctx, shared=None):
     finally:
         with State.lock:
             State.scripts.pop(path, None)
+            State.scripts.pop(mirror, None)
         ev.reset()
         if shared is None:
             shutil.rmtree(d, ignore_errors=True)
